@@ -8,7 +8,9 @@ hand-written product code (macro-generated parser bodies and derive expansions e
   * their state: the locals in the backward slice of the tested values that live across iterations (defined outside the
     loop as well, or parameters);
   * for every cycle header -> ... -> header: whether it contains a *change* of one of those locals - an assignment, or a
-    call that receives a mutable borrow of it (`it.next()`, `lexer.next()`, `stack.pop()`, `self.advance()`).
+    call that receives a mutable borrow of it (`it.next()`, `lexer.next()`, `stack.pop()`, `self.advance()`).  Cutting a text
+    at its own front, `rest = &rest[i..]`, is a change only when a positive lower bound of i can be read off the code
+    (a constant, the length of a constant string, a sum with one of these): `i` = "where the marker was found" can be 0.
 
 A cycle without any change of the exit state repeats forever once entered with the same state (`while let Some(i) =
 s.find(k)` whose body leaves `s` alone on one branch).  Loops whose header itself performs the mutable call (`for`,
@@ -85,6 +87,75 @@ def mut_borrowed_roots(b, c):
     return out
 
 
+def _lower_bound(b, op, depth=8):
+    """a lower bound (>= 0) of an unsigned operand: constants, sums, the length of a constant string; anything else is 0"""
+    if depth <= 0 or op is None:
+        return 0
+    if op[0] == "c":
+        c = b.const_of(op)
+        try:
+            return max(0, int(c[3]["int"])) if c is not None and len(c) > 3 and isinstance(c[3], dict) and "int" in c[3] else 0
+        except (ValueError, TypeError):
+            return 0
+    p = op_place(op)
+    if p is None:
+        return 0
+    d = b.single_def(p[0])
+    if d is None:
+        return 0
+    if d[0] == "stmt":
+        rv = d[3]
+        if rv[0] == "use":
+            return _lower_bound(b, rv[1], depth - 1)
+        if rv[0] == "bin" and rv[1] in ("Add", "AddWithOverflow", "AddUnchecked"):
+            return _lower_bound(b, rv[2], depth - 1) + _lower_bound(b, rv[3], depth - 1)
+        return 0
+    c = d[2]
+    nm = (c.callee or c.u or "")
+    if nm.split("::")[-1] == "len" and c.args:
+        s0 = b.const_str(c.args[0])
+        if s0 is not None:
+            return len(s0.encode("utf-8"))
+    return 0
+
+
+def self_reslice_start(b, stmt, local):
+    """`local = &local[i..]` (through temporaries): the lower bound of i, or None if the assignment is something else"""
+    if stmt[2][0] not in ("use", "ref"):
+        return None
+    p = op_place(stmt[2][1]) if stmt[2][0] == "use" else stmt[2][2]
+    for _ in range(6):
+        if p is None:
+            return None
+        d = b.single_def(p[0])
+        if d is None:
+            return None
+        if d[0] == "stmt" and d[3][0] == "use":
+            p = op_place(d[3][1])
+            continue
+        if d[0] == "stmt" and d[3][0] == "ref":
+            p = d[3][2]
+            continue
+        break
+    else:
+        return None
+    if d[0] != "call":
+        return None
+    c = d[2]
+    if not (c.callee or "").endswith("::index") or len(c.args) < 2:
+        return None
+    rp = op_place(c.args[0])
+    if rp is None or b.root(rp)[0] != local:
+        return None
+    gp = op_place(c.args[1])
+    gd = b.single_def(gp[0]) if gp is not None and not gp[1] else None
+    if not (gd and gd[0] == "stmt" and gd[3][0] == "agg" and isinstance(gd[3][1], dict) and (gd[3][1].get("adt") or "").startswith("core::ops::range::Range")):
+        return None
+    if gd[3][1]["adt"].endswith("RangeTo") or gd[3][1]["adt"].endswith("RangeToInclusive") or gd[3][1]["adt"].endswith("RangeFull"):
+        return 0
+    return _lower_bound(b, gd[3][2][0]) if gd[3][2] else 0
+
+
 def analyse_loop(b, h, body):
     """returns (exit tests found?, state locals, offending cycle or None)"""
     # exit tests
@@ -145,6 +216,10 @@ def analyse_loop(b, h, body):
     for x in body:
         for s in b.bbs[x]["s"]:
             if s[0] == "=" and s[1][0] in state:
+                # `rest = &rest[i..]` moves on only if i > 0: cutting at the place something was *found* (which may be the very beginning)
+                # leaves the text as it is
+                if not s[1][1] and self_reslice_start(b, s, s[1][0]) == 0:
+                    continue
                 # an assignment of a loop-invariant constant to a flag is still a change of the exit state
                 changing.add(x)
         t = b.term(x)
